@@ -2,7 +2,7 @@ SPECIFICATION Spec
 CONSTANTS
   Fact = {"A", "B"}
   Signer = {1, 2}
-  MaxAdd = 4
+  MaxAdd = 3
   MaxReSet = 0
   MaxCalls = 4
   Limits = {1, 2, 5}
@@ -11,6 +11,9 @@ CONSTANTS
   Sym = TRUE
   NCallers = 3
   Removal = "skip"
+  MaxTwice = 0
+  SetRace = "unlocked"
+  Pick = 0
   Emit = "none"
 VIEW View
 INVARIANTS TypeOK Gone R0ok R1ok R2ok R3ok R4ok R6ok
